@@ -12,12 +12,17 @@ namespace Model
 
 /-- `getRound` (exec/function.go).  Ties go toward +∞ for positive arguments; for NEGATIVE arguments a
     tie goes away from zero — the behaviour pinned by TestFunctionRound (`round(-1.5) = -2`),
-    recorded as known finding KF-round-negative-tie. -/
+    recorded as known finding KF-round-negative-tie.  The sign of a zero result follows §4.4:
+    "If the argument is less than zero, but greater than or equal to -0.5, then negative zero is
+    returned." — the code does so for `-0.5 < n < 0` (`math.Copysign(0, -1)`); `-0.5` itself is a
+    negative tie and still gives `-1` (the known finding).  `-0 ↦ -0`, `+0 ↦ +0`. -/
 def round : Num → Num
   | .fin q =>
-    let f : Int := q.floor
-    let d : Rat := q - (f : Rat)
-    if (1 : Rat) / 2 < d || (d == (1 : Rat) / 2 && 0 < q) then .fin ((f + 1 : Int) : Rat) else .fin (f : Rat)
+    if -(1 : Rat) / 2 < q && q < 0 then .nzero
+    else
+      let f : Int := q.floor
+      let d : Rat := q - (f : Rat)
+      if (1 : Rat) / 2 < d || (d == (1 : Rat) / 2 && 0 < q) then .fin ((f + 1 : Int) : Rat) else .fin (f : Rat)
   | x => x
 
 /-- `sum`: left fold of IEEE addition starting from +0 -/
@@ -27,10 +32,18 @@ end Model
 
 namespace Spec
 
-/-- XPath `round`: the integer closest to the argument, ties toward positive infinity;
-    NaN and the infinities pass through.  (Sign of a zero result is not specified here.) -/
+/-- XPath §4.4 `round`: "The round function returns the number that is closest to the argument and
+    that is an integer.  If there are two such numbers, then the one that is closest to positive
+    infinity is returned.  If the argument is NaN, then NaN is returned.  If the argument is positive
+    infinity, then positive infinity is returned.  If the argument is negative infinity, then negative
+    infinity is returned.  If the argument is positive zero, then positive zero is returned.  If the
+    argument is negative zero, then negative zero is returned.  If the argument is less than zero,
+    but greater than or equal to -0.5, then negative zero is returned."
+    So: negative zero for arguments in [-0.5, 0), otherwise ⌊x + ½⌋. -/
 def round : Num → Num
-  | .fin q => .fin (((q + (1 : Rat) / 2).floor : Int) : Rat)
+  | .fin q =>
+    if -(1 : Rat) / 2 ≤ q && q < 0 then .nzero
+    else .fin (((q + (1 : Rat) / 2).floor : Int) : Rat)
   | x => x
 
 /-- the arguments on which the pinned legacy behaviour differs from `Spec.round` -/
